@@ -155,6 +155,7 @@ func runProperty(id string, spec *propSpec, tier, repo, verif, overlayPath, only
 	}
 	cf := e.ConstrainedFiles()
 	extra := map[string]any{"build_constrained_files": cf}
+	os.Setenv("STHLINT_TIER", tier)
 	spec.run(r)
 
 	if tier == "thorough" {
